@@ -35,10 +35,12 @@ type palsCase struct {
 	NearMin int `json:"near_min,omitempty"`
 	// NetDel > 0: the target copy lacks NetDel letters that the query copy has (soundness only: a hit must
 	// reach the minimum length on both sequences)
-	NetDel int    `json:"net_del,omitempty"`
-	SeedT  uint64 `json:"seed_t"`
-	SeedQ  uint64 `json:"seed_q"`
-	SeedM  uint64 `json:"seed_m"` // mutation positions
+	NetDel int `json:"net_del,omitempty"`
+	// LowID: minimum identity below 0.85 (soundness only)
+	LowID bool   `json:"low_id,omitempty"`
+	SeedT uint64 `json:"seed_t"`
+	SeedQ uint64 `json:"seed_q"`
+	SeedM uint64 `json:"seed_m"` // mutation positions
 }
 
 type lcg uint64
@@ -278,9 +280,15 @@ func check(c palsCase) *vlib.Failure {
 			query = revcomp(b.query)
 		}
 		if f := soundness(c, b, hits, b.target, query, comp, desc); f != nil {
+			f.Msg += fmt.Sprintf(" [filter k=%d n=%d e=%d offset=%d]", p.FilterParams.WordSize, p.FilterParams.MinMatch, p.FilterParams.MaxError, p.FilterParams.TubeOffset)
+			if f.Kind == "trivial-self-match" && p.FilterParams.MaxError < pals.MaxIGap {
+				// known finding KF-C15: the guard that drops near-diagonal filter hits in self comparison is
+				// MaxError wide, the banded DP widens each trapezoid by more than that
+				f.Kind = "trivial-self-match-when-max-error-below-band-padding"
+			}
 			return f
 		}
-		if comp == c.Reverse && c.NetDel == 0 {
+		if comp == c.Reverse && c.NetDel == 0 && !c.LowID {
 			for _, h := range hits {
 				_ = h
 			}
@@ -369,6 +377,12 @@ func gen(t *rapid.T) palsCase {
 	if rapid.IntRange(0, 2).Draw(t, "with-indels") == 0 {
 		c.Indels = rapid.IntRange(1, 3).Draw(t, "indels")
 	}
+	if rapid.IntRange(0, 5).Draw(t, "low-identity") == 0 {
+		// permissive settings make Optimise fall back to a shorter filter seed; only the soundness
+		// clauses are asserted there (LowID)
+		c.MinIDPct = rapid.IntRange(70, 84).Draw(t, "min-id-permissive")
+		c.LowID = true
+	}
 	switch rapid.IntRange(0, 5).Draw(t, "length-class") {
 	case 0: // only a little longer than the minimum, differences near both ends
 		c.NearMin = rapid.IntRange(12, 30).Draw(t, "near-min")
@@ -394,6 +408,9 @@ func classes(c palsCase) []string {
 	}
 	if c.Indels > 0 {
 		l = append(l, "indels")
+	}
+	if c.LowID {
+		l = append(l, "permissive-identity")
 	}
 	if c.NetDel > 0 {
 		l = append(l, "near-minimum-with-net-deletions")
